@@ -102,9 +102,10 @@ def eval (cap : Nat) : Path → Bool → Nat → Graph → Term → Except PathE
   | seqLast a, inverse, r, g, f =>
       if r ≥ cap then .error .tooDeep else
       if r = 0 then .error .runtime else eval cap a inverse (r+1) g f
-  | seqNoRest _, _, r, _, _ =>
+  | seqNoRest a, inverse, r, g, f =>
+      -- a cell without rdf:rest ends the list, like rdf:rest rdf:nil
       if r ≥ cap then .error .tooDeep else
-      if r = 0 then .error .runtime else .error (.raw "StopIteration")
+      if r = 0 then .error .runtime else eval cap a inverse (r+1) g f
   | inv q, inverse, r, g, f =>
       if r ≥ cap then .error .tooDeep else eval cap q (!inverse) (r+1) g f
   | alt m, inverse, r, g, f =>
